@@ -286,7 +286,11 @@ func RunFamily(f Family, o Options) *FamilyReport {
 				return string(tlc[i].Cfg)+string(tlc[i].Input) < string(tlc[j].Cfg)+string(tlc[j].Input)
 			})
 			if cp := f.Cap(o.Tier); cp > 0 && len(tlc) > cp {
+				// stratified: cases the family marks as always-kept first, a seeded sample of the rest
 				rng.Shuffle(len(tlc), func(i, j int) { tlc[i], tlc[j] = tlc[j], tlc[i] })
+				if kp, ok := f.(interface{ Keep(*Case) bool }); ok {
+					sort.SliceStable(tlc, func(i, j int) bool { return kp.Keep(&tlc[i]) && !kp.Keep(&tlc[j]) })
+				}
 				tlc = tlc[:cp]
 			} else {
 				rep.Exhaustive = true
